@@ -34,10 +34,16 @@ fn run_case(rec: &mut Rec, d: &Value) {
         let (pts, done) = s.points(area + 64);
         let m = 2;
         let mut c = BTreeSet::new();
+        // ... and the same hit test through the ContainsPoint trait: the probes where the two routes disagree
+        let mut ctd = vec![];
         for y in bb.top_left.y - m..bb.top_left.y + bb.size.height as i32 + m {
             for x in bb.top_left.x - m..bb.top_left.x + bb.size.width as i32 + m {
-                if s.contains(Point::new(x, y)) {
+                let r = s.contains(Point::new(x, y));
+                if r {
                     c.insert((y, x));
+                }
+                if s.contains_via_trait(Point::new(x, y)) != r && ctd.len() < 8 {
+                    ctd.push(json!([x, y]));
                 }
             }
         }
@@ -77,17 +83,17 @@ fn run_case(rec: &mut Rec, d: &Value) {
         }
         // the same sequence through count() / last() / nth() / size_hint(), if next() showed it to be finite
         let proto = if done { s.points_protocol(1 + (pts.len() % 5)) } else { json!({}) };
-        (bb, pts, done, c, far, proto)
+        (bb, pts, done, c, far, proto, ctd)
     });
     match r {
-        Ok((bb, pts, done, c, far, proto)) => {
+        Ok((bb, pts, done, c, far, proto, ctd)) => {
             if !c.is_empty() || !pts.is_empty() {
                 rec.nontrivial();
             }
             rec.ev(
                 "shape",
                 json!({"bbox": rect_json(&bb), "np": pts.len(), "pr": seq_runs(&pts), "trunc": (!done) as i32,
-                       "cr": runs_of(&c), "nc": c.len(), "far": far, "proto": proto}),
+                       "cr": runs_of(&c), "nc": c.len(), "far": far, "proto": proto, "ctd": ctd}),
             );
         }
         Err(p) => {
